@@ -323,6 +323,9 @@ func instrumentFile(p *packages.Package, f *ast.File, path string) *fileEdits {
 		if _, isPtr := t.Underlying().(*types.Pointer); isPtr {
 			return text(x), true
 		}
+		if _, isIface := t.Underlying().(*types.Interface); isIface {
+			return text(x), true // e.g. a sync.Locker value
+		}
 		return "&" + text(x), true
 	}
 
@@ -363,7 +366,7 @@ func instrumentFile(p *packages.Package, f *ast.File, path string) *fileEdits {
 			switch x := inner.(type) {
 			case *ast.ExprStmt:
 				if call, ok := x.X.(*ast.CallExpr); ok {
-					for _, typ := range []string{"Mutex", "RWMutex"} {
+					for _, typ := range []string{"Mutex", "RWMutex", "Locker"} {
 						if recv, name, ok := syncCall(call, typ); ok && (name == "Lock" || name == "RLock") {
 							if arg, ok := recvArg(recv); ok {
 								kind := 0
@@ -446,7 +449,7 @@ func instrumentFile(p *packages.Package, f *ast.File, path string) *fileEdits {
 					rep.SyncMapRange++
 				}
 			}
-			for _, typ := range []string{"Mutex", "RWMutex"} {
+			for _, typ := range []string{"Mutex", "RWMutex", "Locker"} {
 				if _, name, ok := syncCall(x, typ); ok && (name == "Lock" || name == "RLock") && !handledLock[x] {
 					rep.LockUncontrolled = append(rep.LockUncontrolled, where(x.Pos()))
 				}
